@@ -499,9 +499,12 @@ def perron_contract(M):
     m = _raw(M)
     p = core.fresh_int('eigpos', 0, n - 1)
     lam = [core.fresh_real('eigval') for _ in range(n)]
+    # strictly positive matrices are primitive: every other eigenvalue has modulus < 1 (Perron); for merely
+    # irreducible (possibly periodic) matrices other eigenvalues may lie ON the unit circle (real part >= -1)
+    strict = all(ctx.forced(core.to_z3_bool(c > 0)) is True for c in M.cells()) if n <= 4 else False
     for k in range(n):
-        ctx.add(z3.If(p.t == k, core.to_z3_real(lam[k]) == 1,
-                      z3.And(core.to_z3_real(lam[k]) < 1, core.to_z3_real(lam[k]) >= -1)))
+        lo = (core.to_z3_real(lam[k]) > -1) if strict else (core.to_z3_real(lam[k]) >= -1)
+        ctx.add(z3.If(p.t == k, core.to_z3_real(lam[k]) == 1, z3.And(core.to_z3_real(lam[k]) < 1, lo)))
     pi = [core.fresh_real('pi') for _ in range(n)]
     for x in pi:
         ctx.add(core.to_z3_real(x) > 0)
